@@ -34,7 +34,7 @@ Is(e) == l <= Len(T) /\ T[l].e = e
 ObjNames == {"A", "B", "C"}
 NoCirc == [cells |-> <<>>, nets |-> <<>>, rows |-> <<>>]
 Idle == [active |-> FALSE, obj |-> "", stage |-> "", entry |-> NoCirc, ncb |-> 0, firstDet |-> NoCirc,
-         hasDet |-> FALSE, lastWl |-> 0, lastLB |-> NoCirc, lastUB |-> NoCirc, hasLB |-> FALSE, hasUB |-> FALSE,
+         hasDet |-> FALSE, lastDet |-> NoCirc, lastWl |-> 0, lastLB |-> NoCirc, lastUB |-> NoCirc, hasLB |-> FALSE, hasUB |-> FALSE,
          steps |-> <<>>, cb |-> FALSE, thrower |-> "none"]
 NoHist == [s \in {"global", "legalize", "detailed"} |-> [done |-> FALSE, ok |-> FALSE, entry |-> NoCirc, result |-> NoCirc]]
 
@@ -98,7 +98,7 @@ CbFails(c) ==
     (IF st = "detailed" /\ step = "Detailed"
      THEN LegalFails(IF call.hasDet THEN "C02" ELSE "C01", c) \cup OrientFails(call.entry, c) \cup
           (IF call.hasDet /\ Ev.wl > call.lastWl
-           THEN {F("C05", <<"wirelength increased at callback", call.lastWl, Ev.wl>>, WlSignature(call.firstDet, c))} ELSE {}) \cup
+           THEN {F("C05", <<"wirelength increased at callback", call.lastWl, Ev.wl>>, WlSignature(call.firstDet, call.lastDet, c))} ELSE {}) \cup
           (IF call.hasDet /\ ~SamePlace(call.firstDet, c, Ignored(c))
            THEN {F("C02", <<"multi-row cell moved by detailed placement">>, "ignored-moved")} ELSE {})
      ELSE {}) \cup
@@ -120,7 +120,7 @@ RetFails(c) ==
                       ELSE IF RefLegal(o).ok THEN RefLegal(o).result ELSE NoCirc
            IN IF ref = NoCirc THEN {}
               ELSE (IF Hpwl(c) > Hpwl(ref)
-                    THEN {F("C05", <<"wirelength above legalized placement", Hpwl(ref), Hpwl(c)>>, WlSignature(ref, c))} ELSE {}) \cup
+                    THEN {F("C05", <<"wirelength above legalized placement", Hpwl(ref), Hpwl(c)>>, WlSignature(ref, ref, c))} ELSE {}) \cup
                    (IF ~SamePlace(ref, c, Ignored(c))
                     THEN {F("C02", <<"multi-row cell moved by detailed placement">>, "ignored-moved")} ELSE {}))
      ELSE {}) \cup
@@ -169,6 +169,7 @@ Cb == /\ Is("Cb") /\ call.active /\ Ev.obj = call.obj
                        !.hasDet = @ \/ step = "Detailed",
                        !.firstDet = IF ~call.hasDet /\ step = "Detailed" THEN c ELSE @,
                        !.lastWl = IF step = "Detailed" THEN Ev.wl ELSE @,
+                       !.lastDet = IF step = "Detailed" THEN c ELSE @,
                        !.lastLB = IF step = "LowerBound" THEN c ELSE @, !.hasLB = @ \/ step = "LowerBound",
                        !.lastUB = IF step = "UpperBound" THEN c ELSE @, !.hasUB = @ \/ step = "UpperBound"]
       /\ l' = l + 1 /\ UNCHANGED <<run, scen, params, base, hist>>
